@@ -8,6 +8,21 @@ CHECKS = {
     text="Every user-provided copy/move member of the six linear-algebra classes is interpreted abstractly from /repo's source: at the end of every non-self path each scalar member equals the source's, each owning array is a whole-extent deep copy (or the moved storage) whose extent agrees with the class's own invariant; a move resets the source's size members; no member type can alias. This decides 'all state is transferred and nothing is shared' for every operation history, which the per-history tests cannot; it does not decide numerical equality of later results.",
     note="Trusted: clang 14 front end, gmgir lowering, idiom table (std::copy ranges, element loops, make_unique<T[]>, std::move), value semantics of std::unique_ptr/std::vector. Not decided: observational equality beyond state transfer.",
     ref="DESIGN.md section 4 / C15"),
+ "C10": dict(
+    level="other", technique="static analysis: value-flow (Herbrand-term abstract interpretation) of the six cycle functions over the clang AST, compared with the correction-scheme recursion",
+    text="Each cycle function (and the level_interpolation wrappers it calls) is interpreted from /repo's source over exact linear combinations of operator symbols, for every cycle type, with/without extrapolation, 2..5 levels and all pre/post smoothing counts 0..2; the term left in the iterate must equal the recursion of the property (for L=2 without smoothing literally u + P Solve R (f - A u), resp. its extrapolated form). Work vectors start as STALE leaves so scratch dependence, aliasing, wrong-level operands or a clobbered right-hand side are visible. No test calls a cycle; this covers every buffer rotation the recursion can produce.",
+    note="Trusted: clang front end, gmgir lowering, the operator in/out table (cross-checked against const-ness), linearity of the operator symbols. Not decided: numerical accuracy; the meaning of each operator symbol is the subject of C03-C08.",
+    ref="DESIGN.md section 4 / C10, 3.2"),
+ "C09": dict(
+    level="other", technique="static analysis: value-flow (Herbrand terms) of setup()+initializeSolution() against the nested-iteration recursion",
+    text="setup() and initializeSolution() are interpreted from source in every FMG mode (levels 2..5, 0..3 start-up cycles of each type, each extrapolation mode): the finest-level start vector, as a term over the operator symbols, must be the nested iteration from the coarsest direct solve and contain no leaf left by history; per-level right-hand sides must be D_l(Inj^l f) and every vector/operator used must be allocated/initialised by setup(). The FMG interpolation weight tables (copy, sum 1, cubic exactness) are added by the TAB engine when built.",
+    note="Trusted: as C10. Not decided: 'discretisation-level accuracy' of the start vector (numerical).",
+    ref="DESIGN.md section 4 / C09"),
+ "C01": dict(
+    level="other", technique="static analysis: value-flow of solve()/converged() with exhaustive case split over stop-test outcomes",
+    text="Decides only the second sentence's structural core: on every path of solve() (all extrapolation modes, cycles, FMG on/off, tolerance combinations, norm types, 1..3 iterations, every outcome of every stop test) the number compared with the tolerance is the configured norm of the (extrapolated) residual of the iterate currently held, converged() returns true only through value<=tolerance with the right pairing, the relative value is current/initial of this solve, and an early stop returns exactly the tested iterate. Whether the iteration converges, and its rate, are numerical statements static analysis cannot bound.",
+    note="Trusted: as C10. Not decided: convergence within the budget, mean reduction factor < 1.",
+    ref="DESIGN.md section 4 / C01"),
 }
 NA = {
  "C02": "order of accuracy is a limit statement about numerical error under refinement; no clause is visible in the shape of the code (its code-shaped preconditions are checked under C03/C10/C19)",
